@@ -169,6 +169,12 @@ def inject(arm, st):
     arm.is_wait_for_interrupt = bool(st['ev']['wfi'])
 
 
+def project_like(arm, base):
+    """inject `base` and project it back: the base state as this tree's implementation represents it"""
+    inject(arm, base)
+    return project(arm)
+
+
 def diff(a, b):
     """partial state description of b relative to a (what Trace_Step!Overlay consumes)"""
     d = {}
